@@ -94,6 +94,14 @@ def candidate_aggs(fx, body):
     seen = set()
     for cb in decoder_cone(fx, body):
         for bb, st, t in q.stmt_aggs(cb):
+            # `let mut s = S { a: None, .. }; if .. { s.a = Some(read) }`: the value that counts is the struct with its later field
+            # assignments, not the initialiser alone
+            r_ = get_resolver(cb)
+            if not st['p']['p'] and any(pr and len(pr) == 1 and pr[0][0] == 'f' for pr, _, _, _ in r_.defs.get(st['p']['l'], [])) \
+                    and sum(1 for pr, _, _, _ in r_.defs.get(st['p']['l'], []) if not pr) == 1:
+                tl = r_.local(st['p']['l'])
+                if tl[0] == 'agg' and tl[1] == t[1] and tl[2] == t[2]:
+                    t = tl
             te = expand(t, fx, 3, noinl(fx))
             key = repr(te)
             if key not in seen:
